@@ -169,6 +169,14 @@ def check_case(r, ctx):
             equal_to_x.append(("rebuilt", x2))
         else:
             ctx.label("clock-dependent-build")
+        if spec.varkw is not None:
+            # **kwargs constructors: the same keyword arguments in the opposite order describe the same object
+            xr = K.construct(spec, args, reverse_kw=True)
+            if K.snap_cmp(sx, K.snap(xr))[0] == K.SAME:
+                _pair(cls, "keyword-order", x, xr, True, lambda: "keyword arguments in opposite order; args %s" %
+                      K.canon(args)[:600])
+                equal_to_x.append(("keyword-order", xr))
+                ctx.label("keyword-order")
         xc = copy.deepcopy(x)
         if K.snap_cmp(sx, K.snap(xc))[0] == K.SAME:
             _pair(cls, "deepcopy", x, xc, True, lambda: "args %s" % K.canon(args)[:600])
